@@ -215,10 +215,6 @@ def fsStep (fs : FS) (count : Slot → Nat) : Op → FS
     if s.kind.isPair then (applyAll a1.1 (drotFileCalls a1.1 (pubFile s) i).1).1 else a1.1
   | _ => fs
 
-def countStep (count : Slot → Nat) : Op → Slot → Nat
-  | .gen s => upd count s (count s + 1)
-  | _ => count
-
 /-- **The storage never depends on the cache.** -/
 theorem V1.step_fs (st : V1) (o : Op) : (st.step o).1.fs = fsStep st.fs st.count o ∧ (st.step o).1.count = countStep st.count o := by
   cases o with
